@@ -60,7 +60,7 @@ def utf8Ok (b : Bytes) : Bool := (String.fromUTF8? (ByteArray.mk (b.map UInt8.of
 
 def valid (k : DomKind) (d : DomVal) : Bool :=
   payloadLen k d.tag == some d.payload.length && d.payload.all (· < 256) &&
-    (if hasEp k then d.ep != defaultEp && d.ep.all (fun b => b < 256 && b != 37) && utf8Ok d.ep else d.ep.isEmpty)
+    (if hasEp k then d.ep != defaultEp && d.ep.all (· < 256) && utf8Ok d.ep else d.ep.isEmpty)
 
 /-- human prefixes by kind, in `tag` order -/
 def prefixes : DomKind → List String
